@@ -2,6 +2,7 @@
 Line-protocol driver for the random model and the C18 monitor.
   model   <ops>            : one observation line per op line
   monitor C18 <ops> <obs>  : evaluates Spec.C18 on the implementation's observation stream
+  monitor C13 <ops> <obs>  : the random slice of C13 (begin-block totality, queue hygiene, exactly-once)
 
 ops:
   random reset h=<int> t=<unix> hash=<hex|-> addrs=A0:<bech32>:<hex raw>,...
@@ -10,6 +11,8 @@ ops:
   random request_oracle consumer=.. interval=.. tx=.. feecap=<coins|-> fee=<ok|bad> svc=<ctxid|err|panic>
   random cb_response ctx=<ctxid> out=<empty|bad|<hex seed>> err=<0|1>
   random cb_state ctx=<ctxid>
+  random svc_end_block dropped=<ctxid,..|-> gone=<ctxid,..|->   (real service EndBlocker; environment outcome)
+  random svc_respond ctx=<ctxid> seed=<hex32> cb=<1|0|rej>          (provider response through the real service module)
   random prng hash=<hex|-> t=<int> init=<hex|-> oracle=<0|1> seed=<hex|->        (pure)
 -/
 import Irismod.Spec.C18
@@ -156,6 +159,41 @@ def resetState (tbl : Table) (r : List String) : Option State := do
   let hash ← hexArg r "hash"
   some { height := h, unix := tm, hash := hash, addrs := tbl.map fun (_, b, raw) => (b, raw) }
 
+/-- the service module's EndBlocker as seen by this module: for every dropped oracle request one
+    failing response callback (an expired batch reports an error; a paused context reports a state
+    change — both only erase the pending oracle request); contexts that ceased to exist leave
+    the environment mirror `ctxs` -/
+def applySvcEnd (s : State) (dropped gone : List String) : State :=
+  let s1 := dropped.foldl (fun st c => apply st (.cbResponse c .empty true)) s
+  { s1 with ctxs := s1.ctxs.filter fun c => !(gone.contains c) }
+
+inductive SvcLine where
+  | endBlock (dropped gone : List String)
+  | respond (ctx : String) (seed : ByteArray) (cb : String)
+
+def parseSvc (t : List String) : Option SvcLine :=
+  match t with
+  | "random" :: "svc_end_block" :: r => do
+    let d ← arg? r "dropped"
+    let g ← arg? r "gone"
+    some (.endBlock (listOf (undashS d)) (listOf (undashS g)))
+  | "random" :: "svc_respond" :: r => do
+    let c ← arg? r "ctx"
+    let sd ← (arg? r "seed").bind bytesOfHex
+    let cb ← arg? r "cb"
+    if sd.size ≠ 32 then none else
+    if cb ≠ "1" ∧ cb ≠ "0" ∧ cb ≠ "rej" then none else
+    some (.respond c sd cb)
+  | _ => none
+
+def modelSvc (s : State) : SvcLine → State × String
+  | .endBlock dropped gone => (applySvcEnd s dropped gone, "ok")
+  | .respond c seed cb =>
+    if cb == "1" then
+      let r := step s (.cbResponse c (.valid seed) false)
+      ((match r with | .ok s' => s' | .error _ => s), resWord r)
+    else (s, if cb == "0" then "ok" else "rej")
+
 def modelLine (tbl : Table) (s : State) (line : String) : Table × State × String :=
   let t := tokens line
   match t with
@@ -168,6 +206,9 @@ def modelLine (tbl : Table) (s : State) (line : String) : Table × State × Stri
     | none => (tbl, s, "bad-op")
   | "random" :: "prng" :: r => (tbl, s, (prngLine r).getD "bad-op")
   | _ =>
+    match parseSvc t with
+    | some sl => let (s', w) := modelSvc s sl; (tbl, s', w ++ " " ++ showState s')
+    | none =>
     match parseOp tbl t with
     | none => (tbl, s, "bad-op")
     | some op =>
@@ -185,10 +226,10 @@ def runModel (ops : Array String) : IO Unit := do
     tbl := tb
     out.putStrLn o
 
-def runMonitor (ops obs : Array String) : IO Unit := do
+def runMonitor (prop : String) (ops obs : Array String) : IO Unit := do
   let out ← IO.getStdout
   if ops.size ≠ obs.size then
-    out.putStrLn s!"mon C18 FAIL clause=stream-length ops={ops.size} obs={obs.size}"
+    out.putStrLn s!"mon {prop} FAIL clause=stream-length ops={ops.size} obs={obs.size}"
     return
   let mut pre : State := {}
   let mut tbl : Table := []
@@ -203,21 +244,54 @@ def runMonitor (ops obs : Array String) : IO Unit := do
       | some tb =>
         match resetState tb r, parseState o with
         | some s0, some p => tbl := tb; pre := { p with unix := s0.unix, hash := s0.hash, addrs := s0.addrs }
-        | _, _ => out.putStrLn s!"mon C18 FAIL clause=parse line={i+1}"; fails := fails + 1
-      | none => out.putStrLn s!"mon C18 FAIL clause=parse line={i+1}"; fails := fails + 1
+        | _, _ => out.putStrLn s!"mon {prop} FAIL clause=parse line={i+1}"; fails := fails + 1
+      | none => out.putStrLn s!"mon {prop} FAIL clause=parse line={i+1}"; fails := fails + 1
     | "random" :: "prng" :: r =>
       -- the pure PRNG: the value printed by the implementation is in [0,1) with 20 fractional
       -- digits (or the call panicked, which only the zero block time may cause)
       steps := steps + 1
       let word := o.head?.getD ""
-      if word == "ok" then
+      if prop == "C13" then
+        pure ()
+      else if word == "ok" then
         if !(Spec.C18.isDigits20 (arg o "value")) then
-          out.putStrLn s!"mon C18 FAIL clause=value-range line={i+1}"; fails := fails + 1
+          out.putStrLn s!"mon {prop} FAIL clause=value-range line={i+1}"; fails := fails + 1
       else if word == "panic" then
         if intArg? r "t" != some 0 then
-          out.putStrLn s!"mon C18 FAIL clause=prng-panic line={i+1}"; fails := fails + 1
+          out.putStrLn s!"mon {prop} FAIL clause=prng-panic line={i+1}"; fails := fails + 1
       else
-        out.putStrLn s!"mon C18 FAIL clause=parse line={i+1}"; fails := fails + 1
+        out.putStrLn s!"mon {prop} FAIL clause=parse line={i+1}"; fails := fails + 1
+    | "random" :: "svc_end_block" :: _ =>
+      match parseSvc t, parseState o with
+      | some (.endBlock dropped gone), some p =>
+        steps := steps + 1
+        let word := o.head?.getD ""
+        let post : State := { p with unix := pre.unix, hash := pre.hash, addrs := pre.addrs,
+                                      ctxs := pre.ctxs.filter fun c => !(gone.contains c) }
+        -- the service end block never halts, and for this module it may only drop pending oracle requests
+        if word != "ok" then
+          out.putStrLn s!"mon {prop} FAIL clause=service-end-block-panic line={i+1}"; fails := fails + 1
+        else if !(Spec.C18.sameMap pre.queue post.queue (fun _ => false) && Spec.C18.sameMap pre.randoms post.randoms (fun _ => false) &&
+                  pre.height == post.height && Spec.C18.sameMap pre.oracleReqs post.oracleReqs (fun c => dropped.contains c) &&
+                  dropped.all (fun c => (AMap.get? post.oracleReqs c).isNone)) then
+          out.putStrLn s!"mon {prop} FAIL clause=service-end-block-frame line={i+1}"; fails := fails + 1
+        pre := post
+      | _, _ => out.putStrLn s!"mon {prop} FAIL clause=parse line={i+1}"; fails := fails + 1
+    | "random" :: "svc_respond" :: _ =>
+      match parseSvc t, parseState o with
+      | some (.respond c seed cb), some p =>
+        steps := steps + 1
+        let word := o.head?.getD ""
+        let post : State := { p with unix := pre.unix, hash := pre.hash, addrs := pre.addrs, ctxs := pre.ctxs }
+        if prop == "C18" then
+          let fs := if cb == "1" then Spec.C18.check pre (.cbResponse c (.valid seed) false) word post
+                    else Spec.C18.failIf (!(Spec.C18.sameObs pre post)) "response-without-callback-changed-state"
+          for f in fs do
+            let cls := match f.cls with | some c => s!" class={c}" | none => ""
+            out.putStrLn s!"mon {prop} FAIL clause={f.clause} line={i+1}{cls}"
+            fails := fails + 1
+        pre := post
+      | _, _ => out.putStrLn s!"mon {prop} FAIL clause=parse line={i+1}"; fails := fails + 1
     | _ =>
       match parseOp tbl t, parseState o with
       | some op, some p =>
@@ -231,13 +305,13 @@ def runMonitor (ops obs : Array String) : IO Unit := do
           | .requestOracle _ _ _ _ _ _ (.ok c), "ok" => c :: pre.ctxs
           | _, _ => pre.ctxs
         let post : State := { p with unix := ux, hash := hs, addrs := pre.addrs, ctxs := ctxs }
-        for f in Spec.C18.check pre op word post do
+        for f in (if prop == "C13" then Spec.C18.checkC13 pre op word post else Spec.C18.check pre op word post) do
           let cls := match f.cls with | some c => s!" class={c}" | none => ""
-          out.putStrLn s!"mon C18 FAIL clause={f.clause} line={i+1}{cls}"
+          out.putStrLn s!"mon {prop} FAIL clause={f.clause} line={i+1}{cls}"
           fails := fails + 1
         pre := post
-      | _, _ => out.putStrLn s!"mon C18 FAIL clause=parse line={i+1}"; fails := fails + 1
-  out.putStrLn s!"mon C18 done steps={steps} fails={fails}"
+      | _, _ => out.putStrLn s!"mon {prop} FAIL clause=parse line={i+1}"; fails := fails + 1
+  out.putStrLn s!"mon {prop} done steps={steps} fails={fails}"
 
 def readLines (p : String) : IO (Array String) := do
   let c ← IO.FS.readFile p
@@ -246,8 +320,9 @@ def readLines (p : String) : IO (Array String) := do
 def main (args : List String) : IO UInt32 := do
   match args with
   | ["model", ops] => runModel (← readLines ops); return 0
-  | ["monitor", "C18", ops, obs] => runMonitor (← readLines ops) (← readLines obs); return 0
-  | _ => IO.eprintln "usage: model <ops> | monitor C18 <ops> <obs>"; return 2
+  | ["monitor", "C18", ops, obs] => runMonitor "C18" (← readLines ops) (← readLines obs); return 0
+  | ["monitor", "C13", ops, obs] => runMonitor "C13" (← readLines ops) (← readLines obs); return 0
+  | _ => IO.eprintln "usage: model <ops> | monitor C18|C13 <ops> <obs>"; return 2
 
 end Driver.Random
 
